@@ -71,6 +71,18 @@ _EXC = {
 }
 
 
+def exc_class(name):
+    c = _EXC.get(name)
+    if c is None:
+        import builtins
+        c = getattr(builtins, name, None)
+        if c is None:
+            import pymemcache.exceptions as pe
+            c = getattr(pe, name)
+        _EXC[name] = c
+    return c
+
+
 def enc(v):
     """Python value -> JSON-able value."""
     t = type(v)
@@ -153,7 +165,7 @@ def dec(j):
             if k == "$dec":
                 return decimal.Decimal(x)
             if k == "$exc":
-                return _EXC[x]
+                return exc_class(x)
             if k == "$obj":
                 name, st = x
                 if name == "Point":
